@@ -45,9 +45,9 @@ def _build(t1, t2, t3, w1, w2, has_w1, has_w2, cls_member):
     a3 = Alias("y", t3, lineno=2, endlineno=2)
     n.set_member("y", a3)
     if has_w1:
-        m.set_member(w1 + "/*", Alias(w1 + "/*", w1 + ".*", lineno=5, endlineno=5))
+        m.set_member(w1 + "/*", Alias(w1 + "/*", w1, lineno=5, endlineno=5))  # what visit_importfrom creates for `from w1 import *`
     if has_w2:
-        n.set_member(w2 + "/*", Alias(w2 + "/*", w2 + ".*", lineno=3, endlineno=3))
+        n.set_member(w2 + "/*", Alias(w2 + "/*", w2, lineno=3, endlineno=3))
     return col, m, n
 
 
@@ -72,7 +72,10 @@ def _check_graph(col) -> bool:
         return orig(*a, **k)
 
     loader.resolve_module_aliases = counted
+    n_wild_before = sum(1 for a in _all_aliases(col) if a.wildcard)
     un1, it1 = loader.resolve_aliases(implicit=True, external=False)
+    if sum(1 for a in _all_aliases(col) if a.wildcard) < n_wild_before:
+        cover("wildcard-expanded")
     snapshot = []
     for a in _all_aliases(col):
         if a.wildcard:
@@ -133,6 +136,27 @@ def _check_graph(col) -> bool:
     return True
 
 
+def wild_exposes_unresolvable(m1, n1, m3, n3, w1, w2, has_w1, has_w2):
+    """Known-finding region: some wildcard import reads a LOADED module that holds an alias whose chain (before any expansion)
+    does not end at a real object - the expansion then creates an already-resolved alias in front of an unresolvable one."""
+    table = {"m": {"y": None, "x": (m1, n1)}, "n": {"x": ("m", "y"), "y": (m3, n3)}}
+
+    def ok(mod, name, seen):
+        if mod not in table or name not in table[mod]:
+            return False
+        tgt = table[mod][name]
+        if tgt is None:
+            return True
+        if (mod, name) in seen:
+            return False
+        return ok(tgt[0], tgt[1], seen + [(mod, name)])
+
+    def bad(mod):
+        return any(tgt is not None and not ok(mod, name, []) for name, tgt in table[mod].items())
+
+    return (has_w1 and w1 in table and bad(w1)) or (has_w2 and w2 in table and bad(w2))
+
+
 def _pre_targets(m1, n1, m2, n2, m3, n3):
     return seg(m1, MODS) and seg(m2, MODS) and seg(m3, MODS) and seg(n1, NAMES) and seg(n2, NAMES) and seg(n3, NAMES)
 
@@ -173,7 +197,7 @@ def alias_graph(m1: str, n1: str, m2: str, n2: str, m3: str, n3: str, cls_member
     bounds={"modules": "m, n loaded; q not loaded", "wildcard imports": "one in m (from w1), one in n (from w2), each optional, at least one", "aliases": "m.x -> m1.n1, n.y -> m3.n3, n.x -> m.y", "quick restriction": "m wildcard always present, n.y -> m.y fixed; thorough lifts both"},
     value_symbolic=["w1, w2: module named by each wildcard import (m, n or unloaded q): self-wildcards and mutual wildcards included", "m1,n1,m3,n3: alias targets"],
     stubs=STUBS + ["ModuleFinder search path = /nonexistent (no disk access)"],
-    must_cover=["resolved", "unresolvable"],
+    must_cover=["resolved", "unresolvable", "wildcard-expanded", "wildcard_left_unexpanded"],
 )
 def wildcard_graph(m1: str, n1: str, m3: str, n3: str, w1: str, w2: str, has_w1: bool, has_w2: bool) -> bool:
     """Wildcard imports (possibly cyclic / self / from an unloaded module) mixed with plain aliases."""
